@@ -1,0 +1,102 @@
+//go:build verif
+
+package rtpreceiver
+
+// Contracts checked by /verif/govc (see /verif/DESIGN.md). Comment-only file.
+//
+// The reorder buffer is a ring of len(buffer) = 2^j slots. msk = len-1. The slot at
+// distance k from absPos is (absPos+k)&msk; dist(s) = (s-absPos)&msk is its inverse.
+// Representation invariant (unreliable transport): the slot at absPos is empty and a
+// packet stored at distance k carries sequence number last+1+k.
+
+//@ spec msk(rr *Receiver) uint16 = uint16(len(rr.buffer)) - 1
+//@ spec slot(rr *Receiver, k uint16) int = int((rr.absPos + k) & msk(rr))
+//@ spec dist(rr *Receiver, s int) uint16 = (uint16(s) - rr.absPos) & msk(rr)
+//@ spec shape(rr *Receiver) bool = len(rr.buffer) >= 1 && len(rr.buffer) <= 16384 && (len(rr.buffer) & (len(rr.buffer)-1)) == 0 && int(rr.absPos) < len(rr.buffer) && 0 <= rr.negativeCount && rr.negativeCount <= len(rr.buffer)
+//@ spec rinv(rr *Receiver, last uint16) bool = shape(rr) && rr.buffer[int(rr.absPos)] == nil && (forall s :: 0 <= s && s < len(rr.buffer) && rr.buffer[s] != nil ==> rr.buffer[s].SequenceNumber == last + 1 + dist(rr, s))
+//@ spec relpos(rr *Receiver, pkt *rtp.Packet) int16 = int16(pkt.SequenceNumber - rr.lastSequenceNumber - 1)
+//@ spec seqoff(p *rtp.Packet, last uint16) uint16 = p.SequenceNumber - last - 1
+
+//@ ufun cnt(s []*rtp.Packet, a uint16, m uint16, k uint16) int
+//@   axiom cnt(s, a, m, 0) == 0
+//@   axiom k < 65535 ==> cnt(s, a, m, k+1) == cnt(s, a, m, k) + ite(s[int((a+k)&m)] != nil, 1, 0)
+//@   trigger cnt(s, a, m, k+1)
+//@   lemma[k] 0 <= cnt(s, a, m, k) && cnt(s, a, m, k) <= int(k)
+//@   lemma[k; j uint16] j <= k ==> cnt(s, a, m, j) <= cnt(s, a, m, k)
+
+//@ typeinv Receiver rr
+//@   inv[C14] rr.UnrealiableTransport ==> rinv(rr, rr.lastSequenceNumber)
+//@   inv[C14] rr.UnrealiableTransport && !rr.firstRTPPacketReceived ==> forall s :: 0 <= s && s < len(rr.buffer) ==> rr.buffer[s] == nil
+
+//@ func (rr *Receiver) reorder
+//@   mode bv
+//@   opt typeinv=off
+//@   opt frame-tag=C14
+//@   requires rinv(rr, rr.lastSequenceNumber)
+//@   ensures[C14] old(relpos(rr, pkt)) < 0 && old(rr.negativeCount) < len(rr.buffer) ==> len(ret0) == 0 && ret1 == 0 && rr.negativeCount == old(rr.negativeCount) + 1
+//@   ensures[C14] old(relpos(rr, pkt)) < 0 && old(rr.negativeCount) >= len(rr.buffer) ==> len(ret0) == 1 && ret0[0] == pkt && ret1 == 0 && rr.negativeCount == 0
+//@   ensures[C14] old(relpos(rr, pkt)) >= 0 ==> rr.negativeCount == 0
+//@   ensures[C14] old(relpos(rr, pkt)) >= 0 ==> forall j :: 1 <= j && j < len(ret0) ==> int16(ret0[j].SequenceNumber - ret0[j-1].SequenceNumber) > 0
+//@   ensures[C14] old(relpos(rr, pkt)) >= 0 && len(ret0) > 0 ==> int16(ret0[0].SequenceNumber - old(rr.lastSequenceNumber) - 1) >= 0
+//@   ensures[C14] old(relpos(rr, pkt)) == 0 ==> len(ret0) >= 1 && ret0[0] == pkt && ret1 == 0
+//@   ensures[C14] old(relpos(rr, pkt)) >= int16(len(rr.buffer)) ==> len(ret0) >= 1 && ret0[len(ret0)-1] == pkt
+//@   ensures[C14] old(relpos(rr, pkt)) > 0 && old(relpos(rr, pkt)) < int16(len(rr.buffer)) ==> len(ret0) == 0 && ret1 == 0
+//@   ensures[C14] old(relpos(rr, pkt)) >= 0 && len(ret0) > 0 ==> ret1 == uint64(uint16(ret0[len(ret0)-1].SequenceNumber - old(rr.lastSequenceNumber)) - uint16(len(ret0)))
+//@   ensures[C14] len(ret0) == 0 ==> ret1 == 0
+//@   ensures[C14] old(relpos(rr, pkt)) > 0 && old(relpos(rr, pkt)) < int16(len(rr.buffer)) && old(rr.buffer[slot(rr, uint16(relpos(rr, pkt)))]) == nil ==> rr.buffer[old(slot(rr, uint16(relpos(rr, pkt))))] == pkt
+//@   ensures[C14] forall j :: 0 <= j && j < len(ret0) ==> ret0[j] != nil
+//@   ensures[C14] len(ret0) == 0 ==> rinv(rr, rr.lastSequenceNumber)
+//@   ensures[C14] len(ret0) > 0 ==> rinv(rr, ret0[len(ret0)-1].SequenceNumber)
+//@   modifies rr.negativeCount, rr.absPos, elems(rr.buffer), fresh
+//@   loop 1
+//@     invariant i <= uint16(len(rr.buffer))
+//@     invariant forall s :: 0 <= s && s < len(rr.buffer) && dist(rr, s) < i ==> rr.buffer[s] == nil
+//@     decreases len(rr.buffer) - int(i)
+//@   loop 2
+//@     invariant i <= uint16(len(rr.buffer))
+//@     invariant n == 1 + cnt(rr.buffer, rr.absPos, msk(rr), i)
+//@     decreases len(rr.buffer) - int(i)
+//@   loop 3
+//@     invariant i <= uint16(len(rr.buffer)) && len(ret) == n && fresh(ret)
+//@     invariant n == 1 + cnt(old(rr.buffer), rr.absPos, msk(rr), uint16(len(rr.buffer)))
+//@     invariant pos == cnt(old(rr.buffer), rr.absPos, msk(rr), i)
+//@     invariant forall s :: 0 <= s && s < len(rr.buffer) && dist(rr, s) < i ==> rr.buffer[s] == nil
+//@     invariant forall s :: 0 <= s && s < len(rr.buffer) && dist(rr, s) >= i ==> rr.buffer[s] == old(rr.buffer[s])
+//@     invariant forall j :: 0 <= j && j < pos ==> ret[j] != nil && seqoff(ret[j], rr.lastSequenceNumber) < i
+//@     invariant forall j :: 1 <= j && j < pos ==> seqoff(ret[j-1], rr.lastSequenceNumber) < seqoff(ret[j], rr.lastSequenceNumber)
+//@     decreases len(rr.buffer) - int(i)
+//@   loop 4
+//@     invariant 1 <= n && n <= uint16(len(rr.buffer))
+//@     invariant forall k :: 1 <= k && k < int(n) ==> rr.buffer[slot(rr, uint16(k))] != nil
+//@     decreases len(rr.buffer) - int(n)
+//@   loop 5
+//@     invariant 1 <= i && i <= n && len(ret) == int(n) && fresh(ret) && ret[0] == pkt
+//@     invariant rr.absPos == (old(rr.absPos) + i) & msk(rr)
+//@     invariant forall j :: 1 <= j && j < int(i) ==> ret[j] == old(rr.buffer[slot(rr, uint16(j))])
+//@     invariant forall j :: 1 <= j && j < int(i) ==> ret[j] != nil && ret[j].SequenceNumber == old(rr.lastSequenceNumber) + 1 + uint16(j)
+//@     invariant forall s :: 0 <= s && s < len(rr.buffer) && old(dist(rr, s)) >= 1 && old(dist(rr, s)) < i ==> rr.buffer[s] == nil
+//@     invariant forall s :: 0 <= s && s < len(rr.buffer) && !(old(dist(rr, s)) >= 1 && old(dist(rr, s)) < i) ==> rr.buffer[s] == old(rr.buffer[s])
+//@     invariant forall s :: 0 <= s && s < len(rr.buffer) && rr.buffer[s] != nil ==> rr.buffer[s].SequenceNumber == old(rr.lastSequenceNumber) + i + 1 + dist(rr, s)
+//@     decreases int(n) - int(i)
+
+//@ func (rr *Receiver) ProcessPacket2
+//@   mode bv
+//@   opt frame-tag=C14
+//@   requires rr.UnrealiableTransport ==> rr.firstRTPPacketReceived || true
+//@   ensures[C14] !old(rr.firstRTPPacketReceived) ==> len(ret0) == 1 && ret0[0] == pkt && ret1 == 0 && rr.received == 1 && rr.receivedAndLostSinceReport == 1 && rr.lastSequenceNumber == pkt.SequenceNumber && rr.firstRTPPacketReceived
+//@   ensures[C14] old(rr.firstRTPPacketReceived) && !rr.UnrealiableTransport ==> len(ret0) == 1 && ret0[0] == pkt && ret1 == uint64(pkt.SequenceNumber - old(rr.lastSequenceNumber) - 1)
+//@   ensures[C14] old(rr.firstRTPPacketReceived) ==> rr.received == old(rr.received) + uint64(len(ret0)) && rr.lost == old(rr.lost) + ret1
+//@   ensures[C14] old(rr.firstRTPPacketReceived) ==> rr.lostSinceReport == old(rr.lostSinceReport) + ret1 && rr.receivedAndLostSinceReport == old(rr.receivedAndLostSinceReport) + uint64(len(ret0)) + ret1
+//@   ensures[C14] len(ret0) > 0 ==> rr.lastSequenceNumber == ret0[len(ret0)-1].SequenceNumber
+//@   ensures[C14] len(ret0) == 0 ==> rr.lastSequenceNumber == old(rr.lastSequenceNumber) && rr.sequenceNumberCycles == old(rr.sequenceNumberCycles)
+//@   ensures[C14] old(rr.firstRTPPacketReceived) && !rr.UnrealiableTransport ==> rr.sequenceNumberCycles == ite(int32(pkt.SequenceNumber) - int32(old(rr.lastSequenceNumber)) < -4095, old(rr.sequenceNumberCycles) + 1, old(rr.sequenceNumberCycles))
+//@   loop 1
+//@     invariant 0 <= _i && _i <= len(pkts)
+//@     invariant _i == 0 ==> rr.lastSequenceNumber == old(rr.lastSequenceNumber) && rr.sequenceNumberCycles == old(rr.sequenceNumberCycles)
+//@     invariant _i > 0 ==> rr.lastSequenceNumber == pkts[_i-1].SequenceNumber
+//@     invariant !rr.UnrealiableTransport && _i > 0 ==> rr.sequenceNumberCycles == ite(int32(pkt.SequenceNumber) - int32(old(rr.lastSequenceNumber)) < -4095, old(rr.sequenceNumberCycles) + 1, old(rr.sequenceNumberCycles))
+//@     invariant rr.received == old(rr.received) + uint64(len(pkts)) && rr.lost == old(rr.lost) + lost
+//@     invariant rr.lostSinceReport == old(rr.lostSinceReport) + lost && rr.receivedAndLostSinceReport == old(rr.receivedAndLostSinceReport) + uint64(len(pkts)) + lost
+//@     invariant rr.UnrealiableTransport == old(rr.UnrealiableTransport) && rr.firstRTPPacketReceived
+//@     invariant rr.UnrealiableTransport && len(pkts) > 0 ==> rinv(rr, pkts[len(pkts)-1].SequenceNumber)
+//@     invariant rr.UnrealiableTransport && len(pkts) == 0 ==> rinv(rr, rr.lastSequenceNumber)
